@@ -70,7 +70,8 @@ class ReadOnlyCheck:
             "x content root|parent x magnet --meta-version 0..3 + library "
             "calls; judged by before/after snapshot (names, types, bytes, "
             "mode bits) and by an audit hook that must see no creation or "
-            "deletion event on any sandbox path",
+            "deletion event on any sandbox path and no open of an existing "
+            "sandbox file with O_TRUNC (a transient modification)",
             "create: create|new|implicit x -o file|dir/|default-in-cwd x "
             "--prog 0/1/2 x --magnet x option sets x pre-existing output; "
             "judged on the before/after difference only",
@@ -151,6 +152,15 @@ class ReadOnlyCheck:
             res.validated += 1
             changed = diff(before, after)
             created = [e for e in audit.events if e[0] in CREATION]
+            trunc = [e for e in audit.raw_events_with_flags()
+                     if e[0] == "open-w" and e[2] & os.O_TRUNC]
+            if trunc:
+                res.violation(f"C18|{kind}:{[a for a in shown if not a.startswith('-')][0] if kind == 'cli' else shown[0]}|truncates-existing-file|"
+                              f"{g['pstate']}",
+                              {"kind": "readonly", "version": g["version"],
+                               "pstate": g["pstate"], "cmd": kind,
+                               "args": shown, "seed": seed},
+                              {"events": [list(e) for e in trunc[:4]]})
             rw = [e for e in audit.events if e[0] == "open-w"]
             if rw:
                 res.extra["diagnostic_open_for_write_without_change"] += 1
@@ -167,7 +177,8 @@ class ReadOnlyCheck:
                 res.violation(f"C18|{kind}:{word}|creates-or-deletes|"
                               f"{g['pstate']}", case,
                               {"events": [list(e) for e in created[:6]]})
-            res.outcomes["ok" if not (changed or created) else "changed"] += 1
+            res.outcomes["ok" if not (changed or created or trunc)
+                         else "changed"] += 1
             if changed:
                 # rebuild the sandbox so later commands start clean
                 sb, root, mpath = build_sandbox(seed, g["version"],
